@@ -54,6 +54,9 @@ package config
 //@   at store map#5 assert imp(conf.global != nil, exists && !global)
 //@   at store map#6 assert imp(conf.global != nil, exists && !global)
 //@   at store values#1 assert fresh(conf.values)
+// no critical section of Set loses or changes another app's table (the top-level tables are only replaced
+// while they are still empty)
+//@   at unlock #* assert imp(len(old(conf.values)) != 0, forallstr(a, imp(a != app, conf.values[a] == old(conf.values[a]))))
 //@   at store fileRefSet#1 assert fresh(conf.fileRefSet)
 //@   ensures imp(conf.global != nil && exists && !global && old@lock1(conf.properties[app][key].Dynamic.SetDynamic == nil && conf.properties[app][key].GoFunc.Write == nil), result == nil)
 //@   ensures imp(conf.global != nil && exists && !global && old@lock1(conf.properties[app][key].Dynamic.SetDynamic == nil && conf.properties[app][key].GoFunc.Write == nil), conf.values[app][key] == value)
